@@ -33,7 +33,20 @@ def m10(cfg, b: float = 1.0) -> None: ...
 def m11(cfg, a, b, *, k, **rest) -> str: ...
 
 
-METHODS = (m0, m1, m2, m3, m4, m5, m6, m7, m8, m9, m10, m11)
+def _same_name(kind: int):
+    """different functions that share module and __qualname__ (re-used name in one scope)"""
+    if kind == 0:
+        def handler(cfg, a, b=1): ...
+    elif kind == 1:
+        def handler(cfg, *, key: str) -> int: ...
+    else:
+        def handler(cfg, *items, **options) -> "Config": ...
+    return handler
+
+
+METHODS = (m0, m1, m2, m3, m4, m5, m6, m7, m8, m9, m10, m11, _same_name(0), _same_name(1), _same_name(2),
+           lambda cfg, x: x, lambda cfg, *, y=2: y)
+NMETH = len(METHODS)
 
 
 def _params(fn):
@@ -62,7 +75,7 @@ def _stub_params(fdef: ast.FunctionDef):
 
 def _stub(f_scalars: bool, f_containers: bool, f_nested: bool, f_ct: bool, f_virtual: bool, f_secure: bool,
           mi: int, mj: int, target: int) -> bool:
-    schema = Schema()
+    schema = Schema(dynamic=(target == 1))
     persistent, virtual, methods = [], [], {}
     schema.always = IntField(default=1)
     persistent.append("always")
@@ -108,6 +121,7 @@ def _stub(f_scalars: bool, f_containers: bool, f_nested: bool, f_ct: bool, f_vir
         obj, kw = schema, {"class_name": "Stub"}
     elif target == 1:
         obj, kw = schema(), {"class_name": "Stub"}
+        obj.runtime_extra = 5      # a key the dynamic configuration picked up at run time
     else:
         obj, kw = make_type_nt(schema, "Stub"), {}
     cfg_before = None
@@ -118,6 +132,7 @@ def _stub(f_scalars: bool, f_containers: bool, f_nested: bool, f_ct: bool, f_vir
         text = generate_stub(obj, **kw)
     hold("stub", out.getvalue() == "", lambda: "generate_stub wrote to standard output: %r" % out.getvalue())
     hold("stub", list(schema._fields.keys()) == fields_before, "generate_stub changed the schema")
+    hold("stub", "runtime_extra" not in schema() , "a configuration built afterwards carries the other's dynamic key")
     if cfg_before is not None:
         hold("stub", dict(obj.to_tree()) == cfg_before, "generate_stub changed the configuration")
     try:
@@ -144,7 +159,7 @@ def _stub(f_scalars: bool, f_containers: bool, f_nested: bool, f_ct: bool, f_vir
 
 
 WHAT = ("symbolic schema shape (presence of scalar / container / nested schema / config type / virtual / "
-        "secure+challenge fields, up to two instance methods drawn from 12 signature shapes, target = Schema | Config "
+        "secure+challenge fields, up to two instance methods drawn from 17 functions (12 signature shapes, three functions sharing one qualified name, two lambdas), target = Schema | Config "
         "| ConfigType): the stub parses, declares one class with an annotated attribute per field, __init__ takes "
         "exactly the persistent fields, one method per instance method with the same parameter names and kinds; "
         "nothing on stdout; schema and configuration unchanged")
@@ -167,10 +182,10 @@ def _mk_fields(target: int):
 def _mk_methods(mi: int):
     @obligation(prop="C20", name="stub_methods_m%d" % mi, group="stub_methods", sites=("stub",), encodes=ENC,
                 budget={"quick": 240, "thorough": 600},
-                what=WHAT + " [first method shape %d, second method any of 12 or none, all three targets]" % mi)
+                what=WHAT + " [first method shape %d, second method any of 17 or none, all three targets]" % mi)
     def ob(mj: int, target: int, f_virtual: bool) -> bool:
         """
-        pre: -1 <= mj < 12 and 0 <= target <= 2
+        pre: -1 <= mj < 17 and 0 <= target <= 2
         post: _
         """
         return _stub(False, False, False, False, f_virtual, False, mi, mj, target)
@@ -178,5 +193,5 @@ def _mk_methods(mi: int):
 
 for _t in range(3):
     _mk_fields(_t)
-for _m in range(12):
+for _m in range(NMETH):
     _mk_methods(_m)
